@@ -37,7 +37,9 @@ func ReadYamlString(s string) (JsonNode, error) {
 }
 
 func unmarshal(bytes []byte, fn func([]byte, interface{}) error) (JsonNode, error) {
-	if strings.TrimSpace(string(bytes)) == "" {
+	// Only blank text is the void document. (TrimSpace would also strip
+	// Unicode spaces such as a no-break space, which YAML reads as a string.)
+	if strings.Trim(string(bytes), " \t\r\n") == "" {
 		return voidNode{}, nil
 	}
 	var v interface{}
